@@ -253,6 +253,18 @@ let lex_main file =
        let k = (match t.t_kind with LIdent -> 0 | LPunct -> 1 | LNum -> 5 | LStr -> 3 | LChr -> 4) in
        Printf.printf "%d %d %d %s\n" k (if t.t_bol then 1 else 0) (if t.t_space then 1 else 0) (hex_of_bytes t.t_text)) l)
 
+(* lines <file>: per token "line phys pending hex" (C18), or LEXERR *)
+let lines_main file =
+  let ic = open_in_bin file in
+  let n = in_channel_length ic in
+  let s = really_input_string ic n in close_in ic;
+  let bytes = List.init n (fun i -> n_of_int (Char.code s.[i])) in
+  let rec nat_int = function O -> 0 | S m -> 1 + nat_int m in
+  (match token_lines punct_table bytes with
+   | None -> print_endline "LEXERR"
+   | Some l -> List.iter (fun tp ->
+       Printf.printf "%d %d %d %s\n" (nat_int tp.tp_line) (nat_int tp.tp_phys) (nat_int tp.tp_pending) (hex_of_bytes tp.tp_tok.t_text)) l)
+
 (* the punctuator pairs that fuse when printed adjacent (from the proved sweep) *)
 let fusing_main () =
   List.iter (fun (a, b) -> Printf.printf "%s %s\n" (hex_of_bytes a) (hex_of_bytes b)) fusing_pairs
@@ -308,6 +320,7 @@ let () =
   | [_; "abi"] -> abi_main ()
   | [_; "driver"] -> driver_main ()
   | [_; "lex"; f] -> lex_main f
+  | [_; "lines"; f] -> lines_main f
   | [_; "fusing"] -> fusing_main ()
   | [_; "layout"] -> layout_main ()
   | [_; "declspec-spec"] -> declspec_main ()
